@@ -109,18 +109,20 @@ C15(op, A, B) ==
      /\ OneHead(B) /\ Root(B).a.head = "F"
      /\ \A x \in B.nodes : x.a.head \in {"T", "F"}) \cup
    F("C15.structure_unchanged", Shape(A) = Shape(B) /\ Ids(A) = Ids(B)) \cup
-   \* C05 is stated for "head marking; boyd_split; raising": a marking without exactly one head per
-   \* constituent already breaks that pipeline (boyd_split has no head block to keep)
-   F("C05.head_marking", OneHead(B)) \cup
-   (IF n = "negra_mark_heads" THEN
-      F("C15.negra.exact",
-        \A c \in CNodes(B) : LET ks == KidsSeq(B, c) IN ks[NegraHeadIdx(ks)].a.head = "T")
-    ELSE
-      F("C15.rules.unique_listed",
-        \A c \in CNodes(B) :
-           LET ks == KidsSeq(B, c)  pc == Cat(c.a.lab)
-               L == {i \in 1..Len(ks) : Listed(op.rules, pc, Cat(ks[i].a.lab))}
-           IN Cardinality(L) = 1 => ks[CHOOSE i \in L : TRUE].a.head = "T"))
+   \* C05 is stated for "head marking; boyd_split; raising" with the heads the documented marker assigns
+   \* (NeGra heuristic on the edge labels / rule presets): a marking without exactly one head per
+   \* constituent, or with another head than the documented one, already breaks that pipeline (the run
+   \* kept in place is the run of the head child)
+   (LET exact ==
+          IF n = "negra_mark_heads" THEN
+             \A c \in CNodes(B) : LET ks == KidsSeq(B, c) IN ks[NegraHeadIdx(ks)].a.head = "T"
+          ELSE
+             \A c \in CNodes(B) :
+                LET ks == KidsSeq(B, c)  pc == Cat(c.a.lab)
+                    L == {i \in 1..Len(ks) : Listed(op.rules, pc, Cat(ks[i].a.lab))}
+                IN Cardinality(L) = 1 => ks[CHOOSE i \in L : TRUE].a.head = "T"
+    IN F("C05.head_marking", OneHead(B) /\ exact) \cup
+       F(IF n = "negra_mark_heads" THEN "C15.negra.exact" ELSE "C15.rules.unique_listed", exact))
 
 (* ---- C05 ---- *)
 C05split(A, B) ==
